@@ -6,6 +6,7 @@ git diff --quiet || { echo "/repo not clean"; exit 2; }
 for one in ${c//,/ }; do if ! git revert -n "$one" >/dev/null 2>&1; then echo "revert of $one conflicts"; git revert --abort 2>/dev/null; git reset -q --hard HEAD; exit 3; fi; done
 for p in "$@"; do
   out=$(cd /verif && ./check $p 2>&1 | grep -v conda)
-  echo "$c $p: exit=$? violations=$(echo "$out" | grep -c '^VIOLATION') $(echo "$out" | grep -m3 'class=' | tr '\n' ';' | cut -c1-300)"
+  if echo "$out" | grep -q 'MACHINERY ERROR'; then echo "$c $p: NO VERDICT - $(echo "$out" | grep -m1 'MACHINERY ERROR' | cut -c1-120) (a later repair builds on this one: undo them together)"; continue; fi
+  echo "$c $p: violations=$(echo "$out" | grep -c '^VIOLATION') $(echo "$out" | grep -m3 'class=' | tr '\n' ';' | cut -c1-300)"
 done
 git revert --abort 2>/dev/null; git reset -q --hard HEAD
